@@ -94,7 +94,7 @@ type world struct {
 	docs     map[string][2]string // label -> (collection, docID)
 	policyID string
 	restarts int
-	inflight bool // the node was closed without waiting for its pushes
+	inflight bool            // the node was closed without waiting for its pushes
 	everSet  map[string]bool // "target/collection" ever configured by a replicator set
 }
 
@@ -244,6 +244,9 @@ func (w *world) dump(i *inst) (full string, abstract string) {
 		sb.WriteString("DOCS-AS-READER " + c.Name() + " " + rres + "\n")
 		abs = append(abs, fmt.Sprintf("%s#%d(%s;%s;docs=%d,reader=%d)", c.Name(), cs, strings.Join(fabs, ","), strings.Join(iabs, ","), strings.Count(res, `"_docID"`), strings.Count(rres, `"_docID"`)))
 	}
+	// the GraphQL type system the node serves (built at start-up from the stored collections, kept up to date by
+	// schema operations): the object types of the catalogue's names with their fields
+	sb.WriteString("GQLTYPES " + w.gqlTypes(i) + "\n")
 	commits := gql(identity.WithContext(ctx, immutable.Some(w.owner)), i, `query { commits(order: {cid: ASC}) { cid docID fieldName height } }`)
 	sb.WriteString("COMMITS " + commits + "\n")
 	p2p, err := i.n.Peer.GetAllP2PCollections(ctx)
@@ -272,6 +275,41 @@ func (w *world) dump(i *inst) (full string, abstract string) {
 	sort.Strings(abs)
 	abstract = fmt.Sprintf("cols=[%s] p2p=[%s] reps=[%s]", strings.Join(abs, " "), strings.Join(p2p, ","), strings.Join(repNames, ","))
 	return sb.String(), abstract
+}
+
+func (w *world) gqlTypes(i *inst) string {
+	res := i.n.DB.ExecRequest(w.ctx, `query { __schema { types { name fields { name } } } }`)
+	if len(res.GQL.Errors) > 0 {
+		return fmt.Sprint("error: ", res.GQL.Errors)
+	}
+	b, _ := json.Marshal(res.GQL.Data)
+	var m struct {
+		Schema struct {
+			Types []struct {
+				Name   string
+				Fields []struct{ Name string }
+			}
+		} `json:"__schema"`
+	}
+	if err := json.Unmarshal(b, &m); err != nil {
+		return "error: " + err.Error()
+	}
+	var out []string
+	for _, t := range m.Schema.Types {
+		if _, ok := catalogue[t.Name]; !ok && t.Name != "P" {
+			continue
+		}
+		var fs []string
+		for _, f := range t.Fields {
+			if !strings.HasPrefix(f.Name, "_") {
+				fs = append(fs, f.Name)
+			}
+		}
+		sort.Strings(fs)
+		out = append(out, t.Name+"("+strings.Join(fs, ",")+")")
+	}
+	sort.Strings(out)
+	return strings.Join(out, " ")
 }
 
 // what a replication target holds of the collections it is currently configured to receive from node i (after a
@@ -460,6 +498,25 @@ func runCase(ctx context.Context, out *vc.Out, base string, lines []string) {
 					}
 				}
 				return short(err)
+			})
+		case "txschema", "txpatch": // a schema operation inside an explicit transaction that is then discarded
+			res = w.both(func(i *inst) string {
+				txn, err := i.n.DB.NewTxn(ctx, false)
+				if err != nil {
+					return short(err)
+				}
+				tctx := db.InitContext(ctx, txn)
+				if t[0] == "txschema" {
+					_, err = i.n.DB.AddSchema(tctx, catalogue[t[1]])
+				} else {
+					p := fmt.Sprintf(`[{ "op": "add", "path": "/%s/Fields/-", "value": {"Name": "%s", "Kind": 11} }]`, t[1], t[2])
+					err = i.n.DB.PatchSchema(tctx, p, immutable.None[model.Lens](), true)
+				}
+				txn.Discard(ctx)
+				if err != nil {
+					return short(err)
+				}
+				return "discarded"
 			})
 		case "policy":
 			res = w.both(func(i *inst) string {
@@ -667,8 +724,17 @@ func genCase(r *vc.Rng, id uint64) []string {
 			}
 			if len(cand) > 0 {
 				t := cand[r.Intn(len(cand))]
-				lines = append(lines, "schema "+t)
-				have = append(have, t)
+				if r.Chance(1, 4) {
+					// first inside a transaction that is given up
+					lines = append(lines, "txschema "+t)
+					if r.Bool() {
+						lines = append(lines, "restart", "dump")
+					}
+				}
+				if r.Chance(4, 5) {
+					lines = append(lines, "schema "+t)
+					have = append(have, t)
+				}
 			}
 		case x == 3 && !hasP:
 			lines = append(lines, "policy")
@@ -689,6 +755,12 @@ func genCase(r *vc.Rng, id uint64) []string {
 			dup := false
 			for _, e := range fields[t] {
 				dup = dup || e == f
+			}
+			if !dup && r.Chance(1, 4) {
+				lines = append(lines, fmt.Sprintf("txpatch %s %s", t, f))
+				if r.Bool() {
+					lines = append(lines, "restart", "dump")
+				}
 			}
 			if !dup {
 				lines = append(lines, fmt.Sprintf("patch %s %s", t, f))
